@@ -114,13 +114,19 @@ Definition req_type (ty : list N) : option uuid :=
 (* (opcode, kind, lo, hi) of a discovery request this property judges *)
 Definition parse_req (pdu : list N) : option (N * dkind * N * N) :=
   match pdu with
-  | [4; a; b; x; y] => Some (4, KInfo, w16 a b, w16 x y)
-  | [16; a; b; x; y; 0; 40] => Some (16, KGroup, w16 a b, w16 x y)
-  | 8 :: a :: b :: x :: y :: ty =>
-      match req_type ty with
-      | Some u => Some (8, KType u, w16 a b, w16 x y)
-      | None => None
-      end
+  | op :: a :: b :: x :: y :: t =>
+      if op =? 4 then match t with [] => Some (4, KInfo, w16 a b, w16 x y) | _ => None end
+      else if op =? 16 then
+        match t with
+        | [t0; t1] => if (t0 =? 0) && (t1 =? 40) then Some (16, KGroup, w16 a b, w16 x y) else None
+        | _ => None
+        end
+      else if op =? 8 then
+        match req_type t with
+        | Some u => Some (8, KType u, w16 a b, w16 x y)
+        | None => None
+        end
+      else None
   | _ => None
   end.
 
